@@ -288,6 +288,9 @@ def handle : Drv.Handler
     let (cfg, fin) ← parseCfg cfg
     let rep ← rep.nats?
     let c : Case := { g, props := ps, cfg, finish := fin }
+    -- the oracle functions are adequate on well-formed graphs (Props/OracleAdequacy: reachList = Reach without any fixpoint
+    -- hypothesis, distOf = shortest-path length, canAvoidForever = a maximal avoiding path or lasso exists, isForest)
+    if !decide g.WF then pure "ill-formed-graph" else
     if !((g.closeStep g.reachList).all g.reachList.contains) then pure "oracle-closure-not-stabilised" else
     match ← Obs.ofSExp? obs with
     | none => pure "implementation-panicked"
@@ -312,7 +315,9 @@ def handle : Drv.Handler
     let ps ← ps.listOf? GProp.ofSExp?
     let (cfg, fin) ← parseCfg cfg
     let c : Case := { g, props := ps, cfg, finish := fin }
-    -- adequacy of the executable reachability (SR/Proofs/Checker/Spec.lean `reachList_iff`): the closure must be a fixpoint
+    -- adequacy of the oracle functions needs a well-formed graph (Props/OracleAdequacy); the fixpoint test is then redundant
+    -- (C13_oracle_reach_stabilises) and kept as a tripwire
+    if !decide g.WF then pure "ill-formed-graph" else
     if !((g.closeStep g.reachList).all g.reachList.contains) then pure "oracle-closure-not-stabilised" else
     match ← Obs.ofSExp? obs with
     | none => pure "implementation-panicked"
